@@ -418,6 +418,8 @@ def do_check(check, tier, seed):
         log(str(e))
         return 2
     cap = QUICK_WALL_CAP if tier == "quick" else THOROUGH_WALL_CAP
+    if os.environ.get("VERIF_WALL_CAP"):  # smoke tests of a tier: seconds of run time per flavour
+        cap = float(os.environ["VERIF_WALL_CAP"])
     agg = {}
     per_flavour = {}
     all_viol = []     # (flavour key, run record, violation)
